@@ -46,7 +46,23 @@ def main() -> None:
         files = {int(k): v for k, v in json.loads(mapping).items()} if mapping else None
         hist = os.environ.get("VF_C11_HIST", "")
         out["hist"] = hist
-        if hist != "":
+        out["growOk"] = True
+        if hist.startswith("grow"):
+            # the first rank parsed, then the rank with the largest file parsed alone; afterwards everything is loaded as usual
+            ta = TraceAnalysis.__new__(TraceAnalysis)
+            ta.t = Trace(trace_files=files, trace_dir=d)
+            ta.t.parse_traces(max_ranks=1, use_multiprocessing=False)
+            r0 = sorted(ta.t.traces)[0]
+            tab1 = list(ta.t.symbol_table.get_sym_table())
+            dec1 = [(tab1[int(a)], tab1[int(b)]) for a, b in zip(ta.t.traces[r0]["name"], ta.t.traces[r0]["cat"])]
+            big = max((r for r in ta.t.trace_files if r != r0), key=lambda r: os.path.getsize(ta.t.trace_files[r]))
+            ta.t.parse_single_rank(big)
+            tab2 = list(ta.t.symbol_table.get_sym_table())
+            dec2 = [(tab2[int(a)], tab2[int(b)]) for a, b in zip(ta.t.traces[r0]["name"], ta.t.traces[r0]["cat"])]
+            out["growOk"] = bool(tab2[:len(tab1)] == tab1 and dec1 == dec2)
+            ta.t.is_parsed = False
+            ta.t.load_traces(use_multiprocessing=mp)
+        elif hist != "":
             ta = TraceAnalysis.__new__(TraceAnalysis)
             ta.t = Trace(trace_files=files, trace_dir=d)
             ta.t.parse_single_rank(sorted(ta.t.trace_files)[int(hist)])
